@@ -43,6 +43,18 @@ func main() {
 		}
 	}
 
+	// the receiver name is not a fact: "s.x" is printed as "_.x"
+	norm := func(fd *ast.FuncDecl, txt string) string {
+		if fd.Recv != nil && len(fd.Recv.List) > 0 && len(fd.Recv.List[0].Names) > 0 {
+			r := fd.Recv.List[0].Names[0].Name
+			txt = strings.ReplaceAll(" "+txt, " "+r+".", " _.")
+			txt = strings.ReplaceAll(txt, "("+r+".", "(_.")
+			txt = strings.ReplaceAll(txt, ","+r+".", ",_.")
+			txt = strings.ReplaceAll(txt, ">"+r+".", ">_.")
+			txt = strings.TrimPrefix(txt, " ")
+		}
+		return txt
+	}
 	// SavePrecompileCalledJournalChange: statements in order (normalised)
 	var saveStmts []string
 	limitCond := ""
@@ -50,12 +62,12 @@ func main() {
 		for _, st := range fd.Body.List {
 			switch x := st.(type) {
 			case *ast.IfStmt:
-				limitCond = Nospace(x.Cond)
+				limitCond = norm(fd, Nospace(x.Cond))
 				saveStmts = append(saveStmts, "if "+limitCond+" {return error}")
 			case *ast.ReturnStmt:
 				saveStmts = append(saveStmts, Nospace(x))
 			default:
-				saveStmts = append(saveStmts, Nospace(st))
+				saveStmts = append(saveStmts, norm(fd, Nospace(st)))
 			}
 		}
 	}
@@ -115,7 +127,7 @@ func main() {
 						for _, a := range call.Args {
 							args = append(args, Nospace(a))
 						}
-						res = strings.Join(args, ",")
+						res = norm(fd, strings.Join(args, ","))
 					}
 				}
 				return true
